@@ -342,7 +342,11 @@ fn run(run: &mut Run) {
     run.assume("Units::Pico is not in the schema and is not generated; the order of map-derived lists is C20's subject");
     run.min_nontrivial = 200;
     run.explore("raw-proto-raw", run.tier.pick(300_000, 3_000_000), 1200, &forward_case);
+    // the same, each case in a thread of its own (per-thread state of the code starts from scratch)
+    run.explore_fresh("raw-proto-raw", run.tier.pick(3_000, 40_000), 1200, &forward_case);
     run.explore("proto-raw-proto", run.tier.pick(300_000, 3_000_000), 1200, &backward_case);
+    // the same, each case in a thread of its own (per-thread state of the code starts from scratch)
+    run.explore_fresh("proto-raw-proto", run.tier.pick(3_000, 40_000), 1200, &backward_case);
 }
 fn case(sub: &str) -> Option<Box<CaseFn<'static>>> {
     match sub {
